@@ -44,8 +44,25 @@ _RE_INV = re.compile(r"Error: Invariant (\S+) is violated")
 _RE_ACT = re.compile(r"Error: Action property (\S+) is violated")
 
 
-def run(module, cfg, *, workdir, workers=None, env=None, timeout=600, simulate=None,
-        depth=None, seed=None, coverage=False, deque=False, extra=(), cwd=None, dump=None):
+def run(module, cfg, **kw):
+    """Run TLC; a run that dies for a reason unrelated to the specification (JVM could not start, resource
+    exhaustion under load: exit code 255 without a TLC verdict) is retried, so that it never turns into a flaky
+    machinery error. Parse / evaluation errors of the specification are deterministic and fail the same way again."""
+    res = None
+    for attempt in range(3):
+        res = _run_once(module, cfg, **kw)
+        if not res.error or res.violation:
+            return res
+        transient = ("Parse" not in res.out and "Semantic" not in res.out and "evaluat" not in res.out.lower()
+                     and "Attempted to" not in res.out and "is not" not in res.out)
+        if not transient:
+            return res
+        time.sleep(1.5 * (attempt + 1))
+    return res
+
+
+def _run_once(module, cfg, *, workdir, workers=None, env=None, timeout=600, simulate=None,
+              depth=None, seed=None, coverage=False, deque=False, extra=(), cwd=None, dump=None):
     """Run TLC on spec/<module>.tla with config file cfg (path). Returns TLCResult."""
     os.makedirs(workdir, exist_ok=True)
     metadir = os.path.join(workdir, "meta")
